@@ -10,7 +10,52 @@ use redis_sim::replication::lattice::{LamportClock, ReplicaId};
 use redis_sim::replication::state::{ReplicatedValue, ReplicationDelta};
 use redis_sim::replication::ReplicationConfig;
 use serde_json::{json, Value};
+use redis_sim::streaming::{
+    CheckpointInfo, CheckpointWriter, Compression, InMemoryObjectStore, Manifest, ManifestManager, ObjectStore, SegmentInfo, SegmentWriter,
+};
+use redis_sim::streaming::config::StreamingConfig;
+use redis_sim::streaming::integration::StreamingIntegration;
 use std::collections::{BTreeMap, HashMap};
+use std::sync::Arc;
+
+const PREFIX: &str = "test";
+
+/// Restart the way the server binary does: what was streamed (checkpoint, segments, manifest) sits in an
+/// object store and goes through StreamingIntegration::recover; the WAL is replayed afterwards with
+/// apply_recovered_state(None, ..).  `seg` / `wal`: persisted deltas by place, in persist order.
+async fn restart(node: &ReplicatedShardedState, ckpt: &Option<HashMap<String, ReplicatedValue>>, seg: &[ReplicationDelta], wal: &[ReplicationDelta]) -> Result<(), String> {
+    let store = InMemoryObjectStore::new();
+    let mm = ManifestManager::new(store.clone(), PREFIX);
+    let mut manifest = Manifest::new(1);
+    if !seg.is_empty() {
+        let mut w = SegmentWriter::new(Compression::None);
+        for d in seg {
+            w.write_delta(d).map_err(|e| format!("{e:?}"))?;
+        }
+        let data = w.finish().map_err(|e| format!("{e:?}"))?;
+        let key = format!("{}/segments/segment-{:08}.seg", PREFIX, 5);
+        store.put(&key, &data).await.map_err(|e| format!("{e}"))?;
+        let ts: Vec<u64> = seg.iter().map(|d| d.value.timestamp.time).collect();
+        manifest.add_segment(SegmentInfo { id: 5, key, record_count: seg.len() as u32, size_bytes: data.len() as u64,
+                                           min_timestamp: *ts.iter().min().unwrap(), max_timestamp: *ts.iter().max().unwrap() });
+    }
+    if let Some(state) = ckpt {
+        let n = state.len() as u64;
+        let data = CheckpointWriter::new(Compression::None).write(state.clone(), 12345, 4).map_err(|e| format!("{e:?}"))?;
+        let key = format!("{}/checkpoints/chk-{:016}.chk", PREFIX, 12345);
+        store.put(&key, &data).await.map_err(|e| format!("{e}"))?;
+        manifest.checkpoint = Some(CheckpointInfo { key, timestamp_ms: 12345, key_count: n, last_segment_id: 4 });
+    }
+    if !seg.is_empty() || ckpt.is_some() {
+        mm.save(&manifest).await.map_err(|e| format!("{e}"))?;
+    }
+    let integ = StreamingIntegration::with_store(Arc::new(store), StreamingConfig::test(), 1);
+    integ.recover(node).await.map_err(|e| format!("{e}"))?;
+    if !wal.is_empty() {
+        node.apply_recovered_state(None, wal.to_vec());
+    }
+    Ok(())
+}
 
 fn new_node() -> ReplicatedShardedState {
     ReplicatedShardedState::new(ReplicationConfig { replica_id: 1, ..Default::default() })
@@ -24,7 +69,7 @@ async fn mem(node: &ReplicatedShardedState) -> Value {
 async fn run_async(run: usize, steps: Vec<Value>, log: &mut Vec<Value>) {
     let mut node = new_node();
     let mut ckpt: Option<HashMap<String, ReplicatedValue>> = None;
-    let mut deltas: Vec<ReplicationDelta> = Vec::new(); // segments + WAL, in persist order
+    let mut deltas: Vec<(bool, ReplicationDelta)> = Vec::new(); // (in the WAL?, delta): segments + WAL, in persist order
     let mut up = true;
     let mut n = 0u64;
     log.push(json!({"a": "reset", "run": run}));
@@ -37,6 +82,9 @@ async fn run_async(run: usize, steps: Vec<Value>, log: &mut Vec<Value>) {
                 // a delete is a stamped local write like any other (it leaves a tombstone with the stamp)
                 if st.get("del").and_then(|d| d.as_bool()).unwrap_or(false) {
                     let _ = node.execute(argv_cmd(&["DEL", k])).await;
+                } else if st.get("hash").and_then(|d| d.as_bool()).unwrap_or(false) {
+                    // a write of another type is a stamped write too (HSET over a string fails and stamps nothing)
+                    let _ = node.execute(argv_cmd(&["HSET", k, &format!("f{}", n % 3), &format!("v{n}")])).await;
                 } else {
                     let _ = node.execute(argv_cmd(&["SET", k, &format!("v{n}")])).await;
                 }
@@ -45,10 +93,10 @@ async fn run_async(run: usize, steps: Vec<Value>, log: &mut Vec<Value>) {
                 match mine.last() {
                     Some(d) => {
                         ev["st"] = json!([d.value.timestamp.time, d.value.timestamp.replica_id.0]);
-                        deltas.push((*d).clone());
+                        deltas.push((st["place"] == "wal", (*d).clone()));
                     }
                     // DEL of a key the node does not hold writes nothing: not a clock event
-                    None if st.get("del").and_then(|d| d.as_bool()).unwrap_or(false) => ev["skipped"] = json!(true),
+                    None if st.get("del").and_then(|d| d.as_bool()).unwrap_or(false) || st.get("hash").and_then(|d| d.as_bool()).unwrap_or(false) => ev["skipped"] = json!(true),
                     None => ev["st"] = json!([0, 0]),
                 }
             }
@@ -70,7 +118,11 @@ async fn run_async(run: usize, steps: Vec<Value>, log: &mut Vec<Value>) {
                 up = false;
             }
             "recover" if !up => {
-                node.apply_recovered_state(ckpt.clone(), deltas.clone());
+                let seg: Vec<ReplicationDelta> = deltas.iter().filter(|(w, _)| !*w).map(|(_, d)| d.clone()).collect();
+                let wal: Vec<ReplicationDelta> = deltas.iter().filter(|(w, _)| *w).map(|(_, d)| d.clone()).collect();
+                if let Err(e) = restart(&node, &ckpt, &seg, &wal).await {
+                    ev["panic"] = json!(format!("restart failed: {e}"));
+                }
                 up = true;
             }
             _ => ev["skipped"] = json!(true),
@@ -88,7 +140,10 @@ fn random_steps(rng: &mut impl Rng) -> Vec<Value> {
     for _ in 0..rng.gen_range(4..=14) {
         let k = keys[rng.gen_range(0..keys.len())];
         let s = match rng.gen_range(0..10) {
-            0..=3 if up => json!({"a": "write", "k": k, "place": if rng.gen_bool(0.5) { "seg" } else { "wal" }, "del": rng.gen_range(0..4) == 0}),
+            0..=3 if up => {
+                let kind = rng.gen_range(0..6);
+                json!({"a": "write", "k": k, "place": if rng.gen_bool(0.5) { "seg" } else { "wal" }, "del": kind == 0, "hash": kind == 1})
+            }
             4..=5 if up => {
                 let t = [1u64, 2, 3, 7, 50, 1000][rng.gen_range(0..6)];
                 json!({"a": "remote", "k": k, "t": t})
